@@ -113,6 +113,8 @@ def gen_fetch(rng, tier):
             txs.append(",".join(ins)); flat += ins
         order = rng.choice(["inorder", "inorder", "shuffled", "partial", "extra"])
         acc = list(flat)
+        if rng.random() < 0.5:
+            acc = [a for a in acc if not a.startswith("t")]      # as ConnectBlock: outputs created in the block are found in the cache
         if order == "shuffled": rng.shuffle(acc)
         elif order == "partial": acc = acc[:rng.randrange(0, len(acc) + 1)]
         elif order == "extra":
